@@ -2,6 +2,8 @@ package rules
 
 import (
 	"fmt"
+	"sort"
+	"strings"
 
 	"golang.org/x/tools/go/ssa"
 
@@ -60,6 +62,8 @@ func mptEntries(r *engine.Run, rule string) []*ssa.Function {
 
 func runC16(r *engine.Run) {
 	r.Rule("LOCK-mpt", "guarded-by discipline over every function reachable from the trie operations named in the property and from the exported methods of MemoryNodeDB/LevelNodeDB/ChangeCollector: root, deleteNodes, the stores' maps and level links and the collector's maps are accessed only with their owner's mutex held in the required mode (interprocedural must-lockset; writes need the write lock), constructor-only fields are never rewritten; `go` bodies start with nothing held")
+	r.Rule("LOCK-walk", "every node fetch of the trie (getNode) that is reachable from the operations that start at the trie's own root happens with the trie's mutex held (read or write): a walk holds the lock from reading the root to the last node, because writers physically remove replaced nodes. Named exception: IterateFrom starts from a node key supplied by the caller, reads no guarded state and is synchronised by its caller")
+	r.Rule("LOCK-snapshot", "SaveChanges takes its snapshot (ChangeCollector.Clone) with the trie's read lock held and writes from that snapshot, never from the live collector: one update is a sequence of AddChange calls that is atomic only under the trie lock")
 	r.Rule("ORDER-critical", "Insert, Delete, MergeChanges and MergeDB acquire the trie's write lock before the first read of the root and keep it (deferred unlock) until after the last root update: each mutating operation is a single critical section")
 	r.NotDec = append(r.NotDec, "linearizability of histories (needs executions)", "SetVersion concurrent with operations (outside the property's operation set)")
 	const rule = "LOCK-mpt"
@@ -68,6 +72,8 @@ func runC16(r *engine.Run) {
 	w := checkGuards(r, rule, entries, mptOwners, mptGuards)
 	r.Min(rule, 60)
 	orderCritical(r, w)
+	lockWalk(r, w)
+	cloneUnderLock(r, w)
 }
 
 func orderCritical(r *engine.Run, w *engine.LockWorld) {
@@ -130,4 +136,108 @@ func orderCritical(r *engine.Run, w *engine.LockWorld) {
 		r.Check(good, rule, fn(f), r.P.Pos(locks[0].Pos()), "one write-lock acquisition dominating every root access and internal helper call, released by defer",
 			"the mutating operation reads or updates trie state outside its critical section: "+detail)
 	}
+}
+
+func lockWalk(r *engine.Run, w *engine.LockWorld) {
+	const rule = "LOCK-walk"
+	getNode := r.Fn(rule, pkgUtil, "MerklePatriciaTrie", "getNode")
+	iterFrom := r.Fn(rule, pkgUtil, "MerklePatriciaTrie", "IterateFrom")
+	if getNode == nil {
+		return
+	}
+	// lock world without the named exception as an entry
+	var entries []*ssa.Function
+	for _, m := range mptOps {
+		if m == "IterateFrom" {
+			continue
+		}
+		if f, err := r.P.Func(pkgUtil, "MerklePatriciaTrie", m); err == nil {
+			entries = append(entries, f)
+		}
+	}
+	w2 := engine.NewLockWorld(r.P.RepoCG(), entries)
+	n := 0
+	var fns []*ssa.Function
+	for f := range w2.Reached {
+		fns = append(fns, f)
+	}
+	sort.Slice(fns, func(i, j int) bool { return fns[i].Pos() < fns[j].Pos() })
+	for _, f := range fns {
+		o := ord{}
+		engine.Instrs(f, func(in ssa.Instruction) {
+			c, ok := in.(*ssa.Call)
+			if !ok || c.Call.StaticCallee() != getNode {
+				return
+			}
+			n++
+			r.CallSites++
+			held := w2.HeldAt(in)
+			r.Check(held["MerklePatriciaTrie.mutex"] >= engine.ModeR, rule, o.next(fn(f)+"|getNode"), r.P.Pos(in.Pos()), "node fetched under the trie mutex; held "+held.String(),
+				"a node is fetched without the trie's mutex (reached via "+strings.Join(w2.Witness(f, "MerklePatriciaTrie.mutex", engine.ModeR), " -> ")+"): a writer can remove the node between the reader's root read and this fetch, so a lookup of a key that was present throughout fails with node-not-found")
+		})
+	}
+	if iterFrom != nil {
+		r.Note(rule, fn(iterFrom)+"|named exception", r.P.Pos(iterFrom.Pos()), "IterateFrom walks from a caller-supplied node key without the trie lock (caller synchronises)")
+	}
+	if n < 8 {
+		r.Anchor(rule, fmt.Errorf("unresolved anchor: %d getNode call sites reached, 9 confirmed by reading", n))
+	}
+}
+
+func cloneUnderLock(r *engine.Run, w *engine.LockWorld) {
+	const rule = "LOCK-snapshot"
+	f := r.Fn(rule, pkgUtil, "MerklePatriciaTrie", "SaveChanges")
+	if f == nil {
+		return
+	}
+	var clone *ssa.Call
+	engine.Instrs(f, func(in ssa.Instruction) {
+		if c, ok := in.(*ssa.Call); ok && invokeOnField(c, "ChangeCollector", "Clone") {
+			clone = c
+		}
+	})
+	if clone == nil {
+		r.Fail(rule, fn(f)+"|snapshot", r.P.Pos(f.Pos()), "SaveChanges does not snapshot the change collector: it writes from the live collector while updates add and remove changes (a save can contain the new leaf together with the old branch: the complete trie of no root the trie ever had)")
+		return
+	}
+	held := w.HeldAt(clone)
+	r.Check(held["MerklePatriciaTrie.mutex"] >= engine.ModeR, rule, fn(f)+"|snapshot under lock", r.P.Pos(clone.Pos()), "snapshot taken with the trie mutex held; "+held.String(), "the snapshot is taken without the trie's mutex: it can be taken in the middle of an update")
+	// UpdateChanges runs on the snapshot
+	good := false
+	for _, g := range append([]*ssa.Function{f}, f.AnonFuncs...) {
+		engine.Instrs(g, func(in ssa.Instruction) {
+			c, ok := in.(*ssa.Call)
+			if !ok || !c.Call.IsInvoke() || c.Call.Method.Name() != "UpdateChanges" {
+				return
+			}
+			v := c.Call.Value
+			if v == ssa.Value(clone) {
+				good = true
+			}
+			if ld, ok := v.(*ssa.UnOp); ok {
+				// captured variable bound to the clone
+				if fv, ok := ld.X.(*ssa.FreeVar); ok {
+					engine.Instrs(f, func(i2 ssa.Instruction) {
+						if st, ok := i2.(*ssa.Store); ok && st.Val == ssa.Value(clone) {
+							if al, ok := st.Addr.(*ssa.Alloc); ok && al.Comment == fv.Name() {
+								good = true
+							}
+						}
+					})
+				}
+			}
+			if fv, ok := v.(*ssa.FreeVar); ok {
+				for i, x := range g.FreeVars {
+					if x == fv {
+						engine.Instrs(f, func(i2 ssa.Instruction) {
+							if mc, ok := i2.(*ssa.MakeClosure); ok && mc.Fn == ssa.Value(g) && i < len(mc.Bindings) && mc.Bindings[i] == ssa.Value(clone) {
+								good = true
+							}
+						})
+					}
+				}
+			}
+		})
+	}
+	r.Check(good, rule, fn(f)+"|writes from the snapshot", r.P.Pos(clone.Pos()), "UpdateChanges is invoked on the snapshot", "UpdateChanges is not invoked on the snapshot taken under the lock")
 }
